@@ -66,9 +66,8 @@ def readRecords (p : Profile) (a : BinArchive) (headerPadding : Nat) :
 /-- `BinArchiveReader::read_bytes` **as of /repo commit a86b3af** (bin_streams.rs:69-76): an empty
 read succeeds wherever the cursor is; otherwise one positional `BinArchive::read_bytes`
 (`validate_range`), then the cursor advances.
-LOCAL COPY: the shared `Reader.readBytes` (Model/BinStreams.lean) in this branch still transcribes
-the earlier byte-by-byte loop; both agree on every observable of `arc.rs` (result and error
-class), this copy follows the current source. -/
+LOCAL COPY kept from before the shared `Reader.readBytes` (Model/BinStreams.lean) was updated to the
+same semantics (fix D19); the two definitions now coincide, the C16 lemmas are stated on this one. -/
 def readerReadBytes (a : BinArchive) (r : Reader) (count : Nat) : Res (Bytes × Reader) :=
   if count = 0 then .ok ([], r)                                   -- :70-72
   else match a.readBytes r.pos count with                         -- :73
